@@ -199,6 +199,21 @@ def run(ctx):
     ctx.rule('C05.R8', 'engine.io dispatches one client\'s messages in '
              'order (async_handlers=False)', floor=1)
     r8_engineio_ordered(ctx)
+    ctx.rule('C13.R1', 'the responsible handler receives (sid, *args): '
+             'server resolver table (shared rule)', floor=50)
+    ctx.rule('C13.R2', 'namespace-handler table (shared rule)', floor=4)
+    ctx.rule('C13.R3', 'server _trigger_event passes the resolved '
+             'arguments on (shared rule)', floor=10)
+    from . import c13
+    ctx._cur = 'C13.R1'
+    c13.table_rule(ctx, 'BaseServer', '_get_event_handler', c13.event_states,
+                   c13.spec_event, c13.names_event)
+    ctx._cur = 'C13.R2'
+    c13.table_rule(ctx, 'BaseServer', '_get_namespace_handler',
+                   c13.ns_states, c13.spec_ns, c13.names_ns)
+    ctx._cur = 'C13.R3'
+    for cname in ('Server', 'AsyncServer'):
+        c13.r3_trigger(ctx, cname, True)
     ctx.assume('engine.io delivers the frames of one client in order and '
                'contains exceptions of the message callback')
     ctx.assume('exactly-once over whole sequences follows from exactly one '
